@@ -40,7 +40,7 @@ func c16Case(c *core.Ctx) {
 	T := c.R.IntRange(10, 40)
 	run := GenRun(model, c.R, 1, 1, 1, T, 0)
 	c.Begin(run)
-	out, err := Execute(run)
+	out, err := ExecuteFor(c, run)
 	if err != nil {
 		c.Violate("prepare", model, err.Error())
 		return
